@@ -113,7 +113,10 @@ def run(chk):
             for v in range(256):
                 n += 1
                 env = {b0: x, ver: v}
-                hits = [lf for lf in leaves if all(eval_atom(a, env) for a in lf.facts[na:])]
+                try:
+                    hits = [lf for lf in leaves if all(eval_atom(a, env) for a in lf.facts[na:])]
+                except CannotEval:
+                    hits = []      # the validator looks at something else than byte 0 and the version: cannot classify
                 want = layouts.transport_valid(x, v)
                 if len(hits) != 1 or hits[0].kind != 'return' or is_ok(prog, hits[0].value) != want:
                     bad = bad or (x, v, want, [show_value(h.value, prog) if h.kind == 'return' else h.kind for h in hits])
